@@ -67,6 +67,14 @@ func (c *SubscriptionManager) AddSubscription(remoteDevice api.DeviceRemoteInter
 		if reflect.DeepEqual(item.ServerFeature, serverFeature) && reflect.DeepEqual(item.ClientFeature, clientFeature) {
 			return fmt.Errorf("requested subscription is already present")
 		}
+		// the detailed discovery of a device replaces its feature objects and completes their addresses,
+		// a subscription of the same feature made before that is still the same subscription
+		if reflect.DeepEqual(item.ServerFeature, serverFeature) &&
+			item.ClientFeature.Device().Ski() == remoteDevice.Ski() &&
+			reflect.DeepEqual(item.ClientFeature.Address().Entity, clientFeature.Address().Entity) &&
+			reflect.DeepEqual(item.ClientFeature.Address().Feature, clientFeature.Address().Feature) {
+			return fmt.Errorf("requested subscription is already present")
+		}
 	}
 
 	c.subscriptionEntries = append(c.subscriptionEntries, subscriptionEntry)
